@@ -106,10 +106,56 @@ def load_keys(pres):
     return [k for i, k in enumerate(ks) if i % 3 != 0]
 
 
-def validate_traces(graph, inputs, freeze, traces, timeout=3000, graph_text=None):
-    """TLC-validate recorded event streams (list of event lists) against TraceCache.
+class _Merged:
+    """Statistics of several TLC runs presented as one (for the evidence file)."""
 
-    Returns dict(accepted=n, rejected={tid: position}, violated=(name, tid, pos) or None, res=TLCResult)."""
+    def __init__(self, rs):
+        self.generated = sum(r.generated for r in rs)
+        self.distinct = sum(r.distinct for r in rs)
+        self.depth = max(r.depth for r in rs)
+        self.wall = sum(r.wall for r in rs)
+        self.coverage = {}
+        self.violated = next((r.violated for r in rs if r.violated), None)
+        self.stdout = rs[-1].stdout
+        self.printed = [p for r in rs for p in r.printed]
+        self.error_trace = next((r.error_trace for r in rs if r.violated), [])
+
+
+MAX_EVENTS_PER_BATCH = 100000     # the deserialised trace log lives in the JVM heap: 4000 long traces needed > 12 GB in one run
+
+
+def validate_traces(graph, inputs, freeze, traces, timeout=3000, graph_text=None):
+    """TLC-validate recorded event streams against TraceCache, in batches of bounded size (run two at a time).
+
+    Returns dict(accepted=n, rejected={tid: position}, violated=(name, tid, pos) or None, res=statistics)."""
+    batches, cur, n = [], [], 0
+    for i, tr in enumerate(traces):
+        if cur and n + len(tr) > MAX_EVENTS_PER_BATCH:
+            batches.append(cur)
+            cur, n = [], 0
+        cur.append(i)
+        n += len(tr)
+    if cur:
+        batches.append(cur)
+    if len(batches) <= 1:
+        return _validate_batch(graph, inputs, freeze, traces, timeout, graph_text)
+    from multiprocessing.pool import ThreadPool
+    gtext = graph_text or X.to_tla(graph, "CoreGraph")
+    with ThreadPool(2) as pool:
+        outs = pool.map(lambda b: _validate_batch(graph, inputs, freeze, [traces[i] for i in b], timeout, gtext), batches)
+    merged = {"res": _Merged([o["res"] for o in outs]), "rejected": {}, "violated": None, "accepted": 0}
+    for b, o in zip(batches, outs):
+        merged["accepted"] += o["accepted"]
+        for tid, pos in o["rejected"].items():
+            merged["rejected"][b[tid - 1] + 1] = pos
+        if o["violated"] and merged["violated"] is None:
+            name, tid, pos = o["violated"]
+            merged["violated"] = (name, b[tid - 1] + 1 if 0 < tid <= len(b) else 0, pos)
+    return merged
+
+
+def _validate_batch(graph, inputs, freeze, traces, timeout=3000, graph_text=None):
+    """One TLC run over a list of event streams."""
     import json as _json, os, tempfile
     from .tlc import run_tlc, wrapper
     gtext = graph_text or X.to_tla(graph, "CoreGraph")
@@ -139,7 +185,7 @@ def validate_traces(graph, inputs, freeze, traces, timeout=3000, graph_text=None
         _json.dump(slim, fh)
     try:
         res = run_tlc(name, cfg, ["cache"], extra_files={name + ".tla": text, "CoreGraph.tla": gtext},
-                      workers=1, env={"TRACE_FILE": path}, timeout=timeout, dfs_queue=False)
+                      workers=1, env={"TRACE_FILE": path}, timeout=timeout, dfs_queue=False, jvm_opts=["-Xmx8g"])
     finally:
         os.unlink(path)
     out = {"res": res, "rejected": {}, "violated": None, "accepted": 0}
